@@ -28,6 +28,13 @@ Strata added by the coverage audit (all judged by the same oracle):
   handler close   the handler object ends the session itself (421 to RCPT, 421 to the message, an exception)
                   with more pipelined bytes behind.
   big body        a body larger than the recv size (a "burst" is then several recv() results).
+  concurrent      2..3 sessions (own Server, own handler object, own socket) run as greenlets at the same time:
+                  a recv() with no data ready switches back to the feeder, which hands the next segment to a
+                  (seeded) session of its choice, so the sessions interleave segment by segment, each under its own
+                  segmentation -- one session inside DATA (with / without SIZE limit) while another is in its command
+                  phase, two sessions inside DATA at once.  Oracle unchanged and per session: replies and callback
+                  trace equal the stop-and-wait reference run of that session alone.  State shared between
+                  sessions (class / module level buffers, counters, mutable defaults) shows here and nowhere else.
 
 Events that refute: concatenated reply bytes differ; callback trace differs.
 """
@@ -45,7 +52,8 @@ LEVEL_TEXT = ('Real Server + IO + DataReader on a scripted socket with a recordi
               'grid (body kind x transaction layout x {no SIZE limit, SIZE=64}), a sweep of the SIZE limit over '
               'every value around short bodies, a catalogue of hostile command lines (NUL, 8-bit, over-long, '
               'malformed, bare LF) at three positions, unterminated stream tails, handler-closed sessions, bodies '
-              'larger than the recv size, plus seeded random sessions of 1-3 transactions mixing all of these; '
+              'larger than the recv size, 2-3 concurrently fed sessions (greenlets switching at every recv() without '
+              'data), plus seeded random sessions of 1-3 transactions mixing all of these; '
               'each stream is run once stop-and-wait (reference) and then under ~100-500 other '
               'segmentations; reply bytes and callback trace (with message content) compared exactly on every '
               'run. Held = held on the streams x segmentations reported, not a proof for other streams.')
@@ -59,7 +67,9 @@ RULE = ('case = one client byte stream (EHLO|HELO, 1-3 transactions MAIL/RCPT+/D
         'MAIL SIZE= too large) are scripted by address. First a designed grid, then seeded random sessions. '
         'Audit strata: SIZE limit swept over 1..wire+2 for short bodies (cuts at the limit byte, all cut pairs over '
         'the body); hostile command lines before / inside / directly behind a transaction; stream ending inside a '
-        'line; handler closing the session; body > 4096 bytes. '
+        'line; handler closing the session; body > 4096 bytes; 2-3 concurrent sessions interleaved segment by '
+        'segment (designed pairs/triples x per-session segmentations x seeded / round-robin / nested feeding '
+        'orders), each compared with its own stop-and-wait reference. '
         'Each case = 1 reference run + every segmentation listed in the module docstring (each one evaluation). '
         'non-trivial & distinct = distinct (limit, stream) whose stream has >= 1 body that is empty, over the '
         'limit, or has a command-looking or dot-leading line, AND >= 1 command after a body')
@@ -76,7 +86,9 @@ REQUIRED_HITS = ['reference-run', 'replies-compared', 'trace-compared', 'ref-mes
                  'ref-limit-crossed/in-eod-line', 'ref-limit-exactly-at-end-of-eod',
                  'ref-hostile-line-consumed', 'ref-hostile-line-directly-behind-eod', 'ref-end/exception',
                  'ref-open-tail', 'ref-stream-ends-inside-message', 'ref-session-ended-before-stream-end', 'ref-session-closed-by-handler-421',
-                 'ref-session-closed-by-handler-exception', 'ref-unit-larger-than-recv-size']
+                 'ref-session-closed-by-handler-exception', 'ref-unit-larger-than-recv-size',
+                 'conc/session-compared', 'conc/command-phase-while-other-inside-data-no-limit',
+                 'conc/command-phase-while-other-inside-data-with-limit', 'conc/two-sessions-inside-data']
 SHARDS = {'quick': 16, 'thorough': 16}
 BUDGET = {'quick': 60, 'thorough': 800}
 EXHAUSTIVE = {'quick': False, 'thorough': False}
@@ -328,6 +340,54 @@ def audit_designed():
                    E + txn(0, 's', ['r'], AUDIT_BODIES[kind], [b'NOOP']) + txn(1, 's', ['r'], 'plain') + Q)
 
 
+# ---- concurrent sessions ----------------------------------------------------------------------------------
+
+NCONC_RANDOM = {'quick': 120, 'thorough': 4000}
+
+
+def conc_streams():
+    """name -> (limit, units): the sessions that are put side by side."""
+    E = [['c', b'EHLO c\r\n']]
+    Q = [['c', b'QUIT\r\n']]
+    return {
+        'cmds-only': (None, E + [['c', b'NOOP\r\n'], ['c', b'RSET\r\n'], ['c', b'VRFY someone\r\n'],
+                                ['c', b'MAIL FROM:<s0@x>\r\n'], ['c', b'RSET\r\n'], ['c', b'NOOP\r\n']] + Q),
+        'plain-2txn': (None, E + txn(0, 's', ['r'], 'plain') + txn(1, 's', ['r', 'r'], 'dotdot', [b'NOOP']) + Q),
+        'cmds-body': (None, E + txn(0, 's', ['r'], 'cmds', [b'NOOP']) + txn(1, 's', ['r'], 'lone-dots') + Q),
+        'empty-body': (None, E + txn(0, 's', ['r'], 'empty', [b'NOOP']) + txn(1, 's', ['r'], 'barelf') + Q),
+        'long-body': (None, E + txn(0, 's', ['r'], 'over-multi', [b'NOOP']) + Q),
+        'lim-under': (LIMIT, E + txn(0, 's', ['r'], 'near-limit', [b'NOOP']) + txn(1, 's', ['r'], 'half') + Q),
+        'lim-at': (LIMIT, E + txn(0, 's', ['r'], 'at-limit', [b'NOOP']) + Q),
+        'lim-over': (LIMIT, E + txn(0, 's', ['r'], 'over-cmds', [b'NOOP']) + txn(1, 's', ['r'], 'plain') + Q),
+        'lim-over-1': (LIMIT, E + txn(0, 's', ['r'], 'over-by-1') + txn(1, 's', ['r'], 'over-dots', [b'NOOP']) + Q),
+        'lim-small': (12, E + txn(0, 's', ['r'], SWEEP_BODIES['sw-dots'], [b'NOOP']) +
+                      txn(1, 's', ['r'], SWEEP_BODIES['sw-empty']) + Q),
+    }
+
+
+CONC_SEGS = ('burst', 'per-line', 'per-unit', 'bytewise', 'rand')
+CONC_ORDERS = ('random', 'round-robin', 'nested', 'random')
+
+
+def concurrent_cases(tier, seed):
+    names = sorted(conc_streams())
+    k = 0
+    # designed: every ordered pair of streams (so that each one is once the session that is inside DATA while the
+    # other one sends commands), then seeded triples
+    for a in names:
+        for b in names:
+            yield {'origin': 'concurrent', 'sessions': [a, b],
+                   'segs': [CONC_SEGS[k % 5], CONC_SEGS[(k // 5 + 2) % 5]], 'order': CONC_ORDERS[k % 4],
+                   'rs': 9000 + k}
+            k += 1
+    rnd = random.Random('c09-conc-%d' % seed)
+    for i in range(NCONC_RANDOM[tier]):
+        m = rnd.choice([2, 3, 3])
+        yield {'origin': 'concurrent', 'sessions': [rnd.choice(names) for _ in range(m)],
+               'segs': [rnd.choice(CONC_SEGS) for _ in range(m)], 'order': rnd.choice(CONC_ORDERS),
+               'rs': rnd.randrange(1 << 30)}
+
+
 RAND_LINES = [b'x', b'hello world', b'', b'.', b'..', b'. ', b'.x', b'QUIT', b'RSET', b'NOOP', b'DATA',
               b'MAIL FROM:<evil@x>', b'RCPT TO:<evil@x>', b'Subject: s', b'z' * 20, b'z' * 40, b'w' * 70]
 
@@ -395,6 +455,10 @@ def gen_cases(tier, seed, shard, nshards):
         if n % nshards == shard:
             yield {'origin': stratum, 'limit': limit, 'kinds': kinds, 'layout': layout, 'units': units,
                    'rs': 5000 + n, 'nrand': NRANDOM_CUTS}
+        n += 1
+    for c in concurrent_cases(tier, seed):
+        if n % nshards == shard:
+            yield c
         n += 1
     rnd = random.Random('c09-%d-%d' % (seed, shard))
     for i in range(NRANDOM_STREAMS[tier] // nshards):
@@ -607,6 +671,156 @@ def cutsets(stream, units, rnd, nrand, limit=None, allpairs=True):
             yield 'rand-lines', tuple(sorted(set(cs)))
 
 
+# ---------------------------------------------------------------- concurrent sessions (audit stratum)
+
+class SwitchSocket(ScriptSocket):
+    """A read with no data ready switches to the feeder greenlet (what a gevent socket does with the hub) and
+    resumes when the feeder switches back; end of stream is reported as b'' once the feeder has said so."""
+
+    def __init__(self, feeder):
+        ScriptSocket.__init__(self, [], eof=False)
+        self.feeder = feeder
+        self.blocked = False
+
+    def _next(self, n):
+        while not self.segments and not self.eof:
+            self.blocked = True
+            self.feeder.switch()
+            self.blocked = False
+        return ScriptSocket._next(self, n)
+
+
+def _inside_data(sock):
+    """Blocked in a read and the last reply line written is the 354: the server is reading a message."""
+    if not sock.blocked or not sock.sent:
+        return False
+    sent = b''.join(sock.sent)
+    return sent[sent.rfind(b'\n', 0, len(sent) - 1) + 1:].startswith(b'354 ')
+
+
+def conc_segments(stream, units, how, rnd):
+    n = len(stream)
+    if how == 'burst':
+        cuts = ()
+    elif how == 'bytewise':
+        cuts = tuple(range(1, n))
+    elif how == 'per-line':
+        cuts = tuple(i + 1 for i in range(n - 1) if stream[i] == 10)
+    elif how == 'per-unit':
+        pos, cuts = 0, []
+        for _, d in units[:-1]:
+            pos += len(d)
+            cuts.append(pos)
+        cuts = tuple(cuts)
+    else:
+        cuts = tuple(sorted(rnd.sample(range(1, n), min(n - 1, rnd.randint(3, 14)))))
+    return cuts, cut(stream, cuts)
+
+
+def run_concurrent(case, R):
+    import greenlet
+    rnd = random.Random(case['rs'])
+    cat = conc_streams()
+    feeder = greenlet.getcurrent()
+    S = []
+    for name, how in zip(case['sessions'], case['segs']):
+        limit, units = cat[name]
+        stream = b''.join(d for _, d in units)
+        cuts, segs = conc_segments(stream, units, how, rnd)
+        S.append({'name': name, 'limit': limit, 'units': units, 'stream': stream, 'cuts': cuts, 'segs': segs,
+                  'next': 0, 'sock': SwitchSocket(feeder), 'run': None, 'overlapped_inside_data': False})
+    # --- the sessions: real Server objects, each in its own greenlet
+    for s in S:
+        def body(s=s):
+            s['run'] = run_server(s['sock'], s['limit'])
+        s['g'] = greenlet.greenlet(body, parent=feeder)
+    for s in S:
+        s['g'].switch()                 # banner, then blocks in its first read
+    # --- the feeder: one segment at a time to a session of its choice
+    order, schedule, turn = case['order'], [], 0
+    nested_first = rnd.randrange(len(S))
+    while True:
+        live = [i for i, s in enumerate(S) if not s['g'].dead]
+        if not live:
+            break
+        if order == 'round-robin':
+            j = live[turn % len(live)]
+        elif order == 'nested':
+            # one session is driven until it is inside DATA, then the others run to their end, then it resumes
+            f = S[nested_first]
+            others = [i for i in live if i != nested_first]
+            j = nested_first if (nested_first in live and (not others or not _inside_data(f['sock']))) else others[0]
+        else:
+            j = rnd.choice(live)
+        turn += 1
+        s = S[j]
+        before = [(_inside_data(t['sock']), t['limit']) for t in S]
+        progress = (len(s['sock'].sent), len(s['sock'].segments))
+        if s['next'] < len(s['segs']):
+            s['sock'].feed(s['segs'][s['next']])
+            s['next'] += 1
+        else:
+            s['sock'].eof = True
+        schedule.append(j)
+        s['g'].switch()
+        if len(s['sock'].sent) != progress[0]:          # session j answered something in this turn
+            others_in_data = [(i, lim) for i, (ind, lim) in enumerate(before) if ind and i != j]
+            if others_in_data and not before[j][0]:
+                for i, lim in others_in_data:
+                    R.hit('conc/command-phase-while-other-inside-data-' + ('with-limit' if lim else 'no-limit'))
+                    S[i]['overlapped_inside_data'] = True
+        if sum(1 for ind, _ in before if ind) >= 2:
+            R.hit('conc/two-sessions-inside-data')
+        if len(schedule) > 200000:
+            R.inconclusive('concurrent feeder did not terminate')
+            return
+    R.observe('conc/interleaving', (tuple(case['sessions']), tuple(s['cuts'] for s in S), tuple(schedule)))
+    R.observe('conc/session-set', tuple(sorted(case['sessions'])))
+    R.count('conc/feeder-turns', len(schedule))
+    if any(t['limit'] for t in S) and any(not t['limit'] for t in S):
+        R.hit('conc/limit-and-no-limit-sessions-side-by-side')
+    R.nontrivial(('concurrent', tuple(case['sessions']), tuple(s['cuts'] for s in S), tuple(schedule)))
+    # --- oracle, per session: the stop-and-wait reference run of that session alone
+    for k, s in enumerate(S):
+        R.eval(2)
+        ref, as_lines, all_fed = run_reference(s['units'], s['limit'])
+        R.hit('reference-run')
+        var = s['run']
+        R.hit('conc/session-compared')
+        R.hit('replies-compared')
+        R.hit('trace-compared')
+        if var is not None and var.replies == ref.replies and var.trace == ref.trace:
+            continue
+        # is it the segmentation (judged by the other strata) or the company?
+        R.eval()
+        solo = run_segments(s['segs'], s['limit'])
+        alone_ok = solo.replies == ref.replies and solo.trace == ref.trace
+        d = first_diff(ref.trace, var.trace) if var is not None else 0
+        clause = 'callback-trace-differs' if d is not None else 'replies-differ-trace-equal'
+        mech = ('concurrent-sessions/%s%s' % (clause, '/session-inside-data' if s['overlapped_inside_data'] else '')
+                if alone_ok else 'concurrent-sessions/also-differs-alone/' + clause)
+        others = [t['stream'] for i, t in enumerate(S) if i != k]
+        got = var.trace if var is not None else []
+        foreign = any(isinstance(a, bytes) and len(a) >= 6 and a not in s['stream'] and
+                      any(a[:24] in o for o in others) for e in got for a in e)
+        R.violation(mech, 'session %d (%s, %s) of %d concurrent sessions %s differs from its own stop-and-wait '
+                    'reference%s; the same segmentation alone %s'
+                    % (k, s['name'], case['segs'][k], len(S), case['sessions'],
+                       ' (callback arguments contain bytes of another session)' if foreign else '',
+                       'matches it' if alone_ok else 'differs too'),
+                    {'sessions': case['sessions'], 'segmentations': case['segs'], 'order': case['order'],
+                     'session': k, 'limit': s['limit'], 'stream': s['stream'], 'segments': s['segs'],
+                     'feeding_order_first_200': schedule[:200],
+                     'ref_replies': ref.replies, 'got_replies': var.replies if var is not None else None,
+                     'trace_differs_at_event': d,
+                     'ref_event': ref.trace[d] if d is not None and d < len(ref.trace) else None,
+                     'got_event': got[d] if d is not None and d < len(got) else None,
+                     'ref_trace': ref.trace, 'got_trace': got,
+                     'ref_end': ref.end, 'got_end': var.end if var is not None else None,
+                     'same_segmentation_alone_matches_reference': alone_ok,
+                     'callbacks_contain_bytes_of_another_session': foreign})
+
+
 # ---------------------------------------------------------------- oracle helpers
 
 def first_diff(a, b):
@@ -661,6 +875,8 @@ def reply_codes(b):
 # ---------------------------------------------------------------- the check
 
 def run_case(case, R):
+    if case.get('origin') == 'concurrent':
+        return run_concurrent(case, R)
     limit = case['limit']
     units = [[k, bytes(d)] for k, d in case['units']]
     stream = b''.join(d for _, d in units)
